@@ -116,4 +116,12 @@ PROPS = {
         level_text="Generated-input search against a staged copy of the root package: MergePatch vs the RFC 7396 reference for object/array patches, CreateMergePatch round trip and minimality for float64-spelled numbers, the MergeMergePatches composition law, and Equal vs structural equality on escape-free object/array texts. Exploration only.",
         level_note="Trusted: harness/ref and harness/laws. Domains restricted exactly as the property states (numbers as Go prints a float64, no escape sequences for Equal, object/array patches).",
     ),
+    "C20": dict(
+        pkg="c20", helpers=["cli-v5", "cli-legacy"],
+        units=[rapid("TestProp", 1500, 8000), rapid("TestPropLegacy", 500, 5000)],
+        assumptions=COMMON_ASSUME + ["the binaries are built by the driver from /repo's working tree (v5/cmd/json-patch with plain -mod=readonly; cmd/json-patch from the staged legacy module)"],
+        technique="property-based testing (rapid) of the built binaries: differential against an in-process fold of the library's own DecodePatch/Apply over generated stdin documents and ordered patch-file lists",
+        level_text="Generated-input search on the real executables: for each generated stdin document and ordered list of patch files (applicable, failing, malformed, missing, directory; all four flag spellings) the exit status, stdout and stderr are compared with the fold of the library calls: byte-identical stdout and exit 0 on success; no stdout, a message on stderr and a non-zero exit otherwise. Exploration only.",
+        level_note="Trusted: the library itself as the reference for what 'applying the patches' means (C01 covers that), os/exec. Cases on which the library panics in process are excluded here (C04).",
+    ),
 }
